@@ -73,6 +73,14 @@ func NewWaitCloserFromParent(p WaitCloser, stopFun func(error)) WaitCloser {
 		case <-p.Done():
 			wc.Close(p.Error())
 		case <-wc.Done():
+			// the derived context is done as soon as the parent's is, and select picks among ready
+			// cases at random : when the parent is why we are here, the close still has to be recorded
+			// (IsClosed, Error, stopFun), otherwise Done() fires while IsClosed() stays false for ever
+			select {
+			case <-p.Done():
+				wc.Close(p.Error())
+			default:
+			}
 		}
 		return
 	}, nil)
@@ -93,6 +101,12 @@ func NewWaitCloserFromContext(pctx context.Context, stopFun func(error)) WaitClo
 		case <-pctx.Done():
 			wc.Close(pctx.Err())
 		case <-wc.Done():
+			// see NewWaitCloserFromParent : a cancelled parent context also ends the derived one
+			select {
+			case <-pctx.Done():
+				wc.Close(pctx.Err())
+			default:
+			}
 		}
 	}, nil)
 
